@@ -84,14 +84,20 @@ func c01Accessors(p gopacket.Packet, r *vlib.Rand, render bool) {
 			}
 		}
 	}
+	// LayerGoString and %v print a layer's payload in full; in a packet of thousands of layers each layer's payload is the
+	// rest of the packet, so printing all of them is quadratic by construction (not a property of the library): the
+	// full renderers run while a byte allowance lasts, the summarising ones (LayerString, LayerDump) on every layer
+	allowance := 1 << 20
 	for _, l := range p.Layers() {
-		l.LayerContents()
-		l.LayerPayload()
+		cost := len(l.LayerContents()) + len(l.LayerPayload())
 		if render {
 			_ = gopacket.LayerString(l)
 			_ = gopacket.LayerDump(l)
-			_ = gopacket.LayerGoString(l)
-			_ = fmt.Sprintf("%v %+v", l, l)
+			if allowance >= cost {
+				allowance -= cost
+				_ = gopacket.LayerGoString(l)
+				_ = fmt.Sprintf("%v %+v", l, l)
+			}
 		}
 		if x, ok := l.(interface{ LinkFlow() gopacket.Flow }); ok {
 			x.LinkFlow()
@@ -390,6 +396,7 @@ func c01Shapes(c *vlib.Ctx) {
 			vs := cp.Shrinks(seed, c.Pick(160, 1200))
 			st, _ := cp.Structural(seed)
 			vs = append(vs, st...)
+			vs = append(vs, cp.LongRepeats(r, seed, c.Pick(3, 40), c.Pick(16384, 65536))...)
 			for _, b := range vs {
 				c01Light(c, r, t, b)
 			}
